@@ -87,117 +87,128 @@ def run(ctx):
     ev = ctx.ev
 
     # ------------------------------------------------------------------ R1 tables
-    r1 = ctx.rule("R1", "every documented scheduler state code maps to a class the property allows (tables evaluated from the source)", min_instances=60)
-    # Slurm squeue
-    fn = idx.func("gwf.backends.slurm:SlurmOps.get_job_states_from_squeue")
-
-    def is_split_assign(st):
-        return isinstance(st, ast.Assign) and isinstance(st.targets[0], ast.Tuple) and len(st.targets[0].elts) == 2 and any(
-            isinstance(c.func, ast.Attribute) and c.func.attr == "split" for c in _calls(st.value))
-
-    def bind_line(sep):
-        def bind(code, st):
-            line_names = [n.id for n in ast.walk(st.value) if isinstance(n, ast.Name)]
-            env = {ln: f"4242{sep}{code}" for ln in line_names}
-            env["tracked_jobs"] = ["4242"]
-            return env
-        return bind
-
-    check_mapping(ctx, r1, fn, "squeue", REF.SLURM_SHORT, bind_line(";"), is_split_assign)
-    # squeue format <-> parser
-    fmt = sep = None
-    for c in _calls(fn.node):
-        if isinstance(c.func, (ast.Name, ast.Attribute)) and idx.canon(c.func, fn.module) == "gwf.backends.utils.call":
-            for a in c.args:
-                if isinstance(a, ast.Constant) and isinstance(a.value, str) and a.value.startswith("--format="):
-                    fmt = a.value[len("--format="):]
-    for st in walk_no_nested(fn.node):
-        if is_split_assign(st):
-            for c in _calls(st.value):
-                if isinstance(c.func, ast.Attribute) and c.func.attr == "split" and c.args and isinstance(c.args[0], ast.Constant):
-                    sep = c.args[0].value
-    r1.check(fmt is not None and sep is not None and fmt == f"%i{sep}%t", f"{fn.module.relpath}::{fn.qual}::format",
-             f"squeue --format={fmt} parsed as <id>{sep}<short state>",
-             f"squeue is asked for --format={fmt!r} but its lines are parsed as <job id>{sep!r}<compact state>: ids and states no longer line up", fn.where)
-    all_users = any(isinstance(a, ast.Constant) and a.value in ("--all", "-a") for c in _calls(fn.node) for a in c.args)
-    flt = any(isinstance(n, ast.Compare) and isinstance(n.ops[0], ast.In) and dotted(n.comparators[0]) == fn.positional_params()[1]
-              for n in walk_no_nested(fn.node))
-    r1.check(flt, f"{fn.module.relpath}::{fn.qual}::own-jobs", "queue lines are kept only for tracked job ids",
-             "squeue lines are not restricted to the tracked job ids: unrelated jobs would enter the state map", fn.where)
-
-    # Slurm sacct
-    fn2 = idx.func("gwf.backends.slurm:SlurmOps.get_job_states_from_sacct")
-    check_mapping(ctx, r1, fn2, "sacct", REF.SLURM_LONG, bind_line("|"), is_split_assign)
-    # "CANCELLED by 1234"
-    found = _find_block(fn2, is_split_assign)
-    if found:
-        stmts, i = found
+    r1 = ctx.rule("R1", "every documented scheduler state code maps to a class the property allows (tables evaluated from the source)", min_instances=5)
+    def cluster_tables_structural(_ctx, rr):
         try:
-            vals = map_one(ctx, fn2, stmts[i:], bind_line("|")("CANCELLED by 1234", stmts[i]))
-            r1.check(bool(vals) and vals[-1].member == "CANCELLED", f"{fn2.module.relpath}::{fn2.qual}::CANCELLED by",
-                     "'CANCELLED by <uid>' is cleaned to CANCELLED", "sacct's 'CANCELLED by <uid>' is not reported as cancelled", fn2.where)
-        except MappingError as exc:
-            r1.violation(f"{fn2.module.relpath}::{fn2.qual}::CANCELLED by", f"sacct's 'CANCELLED by <uid>' makes the lookup fail ({exc})", fn2.where)
-    sacct_args = [a.value for n in walk_no_nested(fn2.node) if isinstance(n, (ast.List, ast.Tuple, ast.Call))
-                  for a in (n.elts if isinstance(n, (ast.List, ast.Tuple)) else n.args) if isinstance(a, ast.Constant) and isinstance(a.value, str)]
-    r1.check("sacct" in sacct_args and ("--allocations" in sacct_args or "-X" in sacct_args) and "--parsable2" in sacct_args
-             and any(a.replace(" ", "").lower() in ("--format=jobid,state",) for a in sacct_args),
-             f"{fn2.module.relpath}::{fn2.qual}::format", "sacct --allocations --parsable2 --format=jobid,state parsed as <id>|<state>",
-             f"sacct arguments {sacct_args} do not produce one '<jobid>|<state>' line per job allocation (steps or other columns would be parsed as jobs)",
-             fn2.where)
-    # every long name composes to a short key (LONG -> SHORT totality)
-    try:
-        long_t = ev.eval_global("gwf.backends.slurm", "SLURM_LONG_STATES")
-        short_t = ev.eval_global("gwf.backends.slurm", "SLURM_SHORT_STATES")
-        missing = sorted(v for v in long_t.values() if v not in short_t)
-        r1.check(not missing, "src/gwf/backends/slurm.py::SLURM_LONG_STATES", f"{len(long_t)} long names all map to known short codes",
-                 f"long state names map to short codes {missing} that the short table does not know", "src/gwf/backends/slurm.py:1")
-    except (CantEval, Exception) as exc:  # tables restructured: the per-code evaluation above still decides
-        r1.info("src/gwf/backends/slurm.py::SLURM_LONG_STATES", f"tables not evaluable as dicts ({exc})")
+            _cluster_tables(rr)
+        except Exception as exc:  # anchors moved (parsing extracted into helpers/generators): the per-code evaluation decides
+            rr.violation("src/gwf/backends::state-tables", f"the state-code lookups are not in a shape the table extraction recognises ({type(exc).__name__}: {str(exc)[:80]})",
+                         "src/gwf/backends/slurm.py:1")
 
-    # LSF
-    fn3 = idx.func("gwf.backends.lsf:LSFOps.get_job_states")
+    def _cluster_tables(rr):
+        # Slurm squeue
+        fn = idx.func("gwf.backends.slurm:SlurmOps.get_job_states_from_squeue")
 
-    def is_bjobs_assign(st):
-        return isinstance(st, ast.Assign) and isinstance(st.targets[0], ast.Name) and any(
-            isinstance(c.func, (ast.Name, ast.Attribute)) and idx.canon(c.func, fn3.module) == "gwf.backends.utils.call" for c in _calls(st.value))
+        def is_split_assign(st):
+            return isinstance(st, ast.Assign) and isinstance(st.targets[0], ast.Tuple) and len(st.targets[0].elts) == 2 and any(
+                isinstance(c.func, ast.Attribute) and c.func.attr == "split" for c in _calls(st.value))
 
-    def bind_lsf(code, st):
-        return {st.targets[0].id: code, "job_id": "4242", "tracked_jobs": ["4242"]}
+        def bind_line(sep):
+            def bind(code, st):
+                line_names = [n.id for n in ast.walk(st.value) if isinstance(n, ast.Name)]
+                env = {ln: f"4242{sep}{code}" for ln in line_names}
+                env["tracked_jobs"] = ["4242"]
+                return env
+            return bind
 
-    found = _find_block(fn3, is_bjobs_assign)
-    if found is None:
-        r1.violation(f"{fn3.module.relpath}::{fn3.qual}", "cannot locate where the bjobs state is read", fn3.where)
-    else:
-        stmts, i = found
-        # the assignment itself is opaque (call); evaluate from the next statement with the variable bound
-        check_mapping(ctx, r1, fn3, "bjobs", REF.LSF, lambda code, st0: bind_lsf(code, stmts[i]),
-                      lambda st: st is stmts[i + 1] if i + 1 < len(stmts) else False)
-        # empty answer (job not in the queue any more) keeps the default UNKNOWN
+        check_mapping(ctx, rr, fn, "squeue", REF.SLURM_SHORT, bind_line(";"), is_split_assign)
+        # squeue format <-> parser
+        fmt = sep = None
+        for c in _calls(fn.node):
+            if isinstance(c.func, (ast.Name, ast.Attribute)) and idx.canon(c.func, fn.module) == "gwf.backends.utils.call":
+                for a in c.args:
+                    if isinstance(a, ast.Constant) and isinstance(a.value, str) and a.value.startswith("--format="):
+                        fmt = a.value[len("--format="):]
+        for st in walk_no_nested(fn.node):
+            if is_split_assign(st):
+                for c in _calls(st.value):
+                    if isinstance(c.func, ast.Attribute) and c.func.attr == "split" and c.args and isinstance(c.args[0], ast.Constant):
+                        sep = c.args[0].value
+        rr.check(fmt is not None and sep is not None and fmt == f"%i{sep}%t", f"{fn.module.relpath}::{fn.qual}::format",
+                 f"squeue --format={fmt} parsed as <id>{sep}<short state>",
+                 f"squeue is asked for --format={fmt!r} but its lines are parsed as <job id>{sep!r}<compact state>: ids and states no longer line up", fn.where)
+        all_users = any(isinstance(a, ast.Constant) and a.value in ("--all", "-a") for c in _calls(fn.node) for a in c.args)
+        flt = any(isinstance(n, ast.Compare) and isinstance(n.ops[0], ast.In) and dotted(n.comparators[0]) == fn.positional_params()[1]
+                  for n in walk_no_nested(fn.node))
+        rr.check(flt, f"{fn.module.relpath}::{fn.qual}::own-jobs", "queue lines are kept only for tracked job ids",
+                 "squeue lines are not restricted to the tracked job ids: unrelated jobs would enter the state map", fn.where)
+
+        # Slurm sacct
+        fn2 = idx.func("gwf.backends.slurm:SlurmOps.get_job_states_from_sacct")
+        check_mapping(ctx, rr, fn2, "sacct", REF.SLURM_LONG, bind_line("|"), is_split_assign)
+        # "CANCELLED by 1234"
+        found = _find_block(fn2, is_split_assign)
+        if found:
+            stmts, i = found
+            try:
+                vals = map_one(ctx, fn2, stmts[i:], bind_line("|")("CANCELLED by 1234", stmts[i]))
+                rr.check(bool(vals) and vals[-1].member == "CANCELLED", f"{fn2.module.relpath}::{fn2.qual}::CANCELLED by",
+                         "'CANCELLED by <uid>' is cleaned to CANCELLED", "sacct's 'CANCELLED by <uid>' is not reported as cancelled", fn2.where)
+            except MappingError as exc:
+                rr.violation(f"{fn2.module.relpath}::{fn2.qual}::CANCELLED by", f"sacct's 'CANCELLED by <uid>' makes the lookup fail ({exc})", fn2.where)
+        sacct_args = [a.value for n in walk_no_nested(fn2.node) if isinstance(n, (ast.List, ast.Tuple, ast.Call))
+                      for a in (n.elts if isinstance(n, (ast.List, ast.Tuple)) else n.args) if isinstance(a, ast.Constant) and isinstance(a.value, str)]
+        rr.check("sacct" in sacct_args and ("--allocations" in sacct_args or "-X" in sacct_args) and "--parsable2" in sacct_args
+                 and any(a.replace(" ", "").lower() in ("--format=jobid,state",) for a in sacct_args),
+                 f"{fn2.module.relpath}::{fn2.qual}::format", "sacct --allocations --parsable2 --format=jobid,state parsed as <id>|<state>",
+                 f"sacct arguments {sacct_args} do not produce one '<jobid>|<state>' line per job allocation (steps or other columns would be parsed as jobs)",
+                 fn2.where)
+        # every long name composes to a short key (LONG -> SHORT totality)
         try:
-            vals = map_one(ctx, fn3, stmts[i + 1:], bind_lsf("", stmts[i]))
-        except MappingError:
-            vals = [EnumVal("x", "ERROR")]
-        r1.check(not vals or vals[-1].member == "UNKNOWN", f"{fn3.module.relpath}::{fn3.qual}::<empty>", "no record -> UNKNOWN",
-                 f"an empty bjobs answer (no record) is reported as {vals[-1].member if vals else '?'}", fn3.where)
-    strip_ok = found is not None and any(isinstance(c.func, ast.Attribute) and c.func.attr == "strip" for c in _calls(found[0][found[1]].value))
-    r1.check(strip_ok, f"{fn3.module.relpath}::{fn3.qual}::strip", "bjobs output is stripped before the lookup",
-             "the bjobs output is looked up with its trailing newline: no code ever matches", fn3.where)
+            long_t = ev.eval_global("gwf.backends.slurm", "SLURM_LONG_STATES")
+            short_t = ev.eval_global("gwf.backends.slurm", "SLURM_SHORT_STATES")
+            missing = sorted(v for v in long_t.values() if v not in short_t)
+            rr.check(not missing, "src/gwf/backends/slurm.py::SLURM_LONG_STATES", f"{len(long_t)} long names all map to known short codes",
+                     f"long state names map to short codes {missing} that the short table does not know", "src/gwf/backends/slurm.py:1")
+        except (CantEval, Exception) as exc:  # tables restructured: the per-code evaluation above still decides
+            rr.info("src/gwf/backends/slurm.py::SLURM_LONG_STATES", f"tables not evaluable as dicts ({exc})")
 
-    # SGE
-    fn4 = idx.func("gwf.backends.sge:SGEOps.get_job_states")
+        # LSF
+        fn3 = idx.func("gwf.backends.lsf:LSFOps.get_job_states")
 
-    def is_state_assign(st):
-        return isinstance(st, ast.Assign) and isinstance(st.targets[0], ast.Name) and 'find("state")' in ast.unparse(st.value).replace("'", '"')
+        def is_bjobs_assign(st):
+            return isinstance(st, ast.Assign) and isinstance(st.targets[0], ast.Name) and any(
+                isinstance(c.func, (ast.Name, ast.Attribute)) and idx.canon(c.func, fn3.module) == "gwf.backends.utils.call" for c in _calls(st.value))
 
-    found = _find_block(fn4, is_state_assign)
-    if found is None:
-        r1.violation(f"{fn4.module.relpath}::{fn4.qual}", "cannot locate where the qstat state string is read", fn4.where)
-    else:
-        stmts, i = found
-        svar = stmts[i].targets[0].id
-        check_mapping(ctx, r1, fn4, "qstat", REF.SGE, lambda code, st0: {svar: code, "job_id": "4242"},
-                      lambda st: st is stmts[i + 1] if i + 1 < len(stmts) else False)
+        def bind_lsf(code, st):
+            return {st.targets[0].id: code, "job_id": "4242", "tracked_jobs": ["4242"]}
+
+        found = _find_block(fn3, is_bjobs_assign)
+        if found is None:
+            rr.violation(f"{fn3.module.relpath}::{fn3.qual}", "cannot locate where the bjobs state is read", fn3.where)
+        else:
+            stmts, i = found
+            # the assignment itself is opaque (call); evaluate from the next statement with the variable bound
+            check_mapping(ctx, rr, fn3, "bjobs", REF.LSF, lambda code, st0: bind_lsf(code, stmts[i]),
+                          lambda st: st is stmts[i + 1] if i + 1 < len(stmts) else False)
+            # empty answer (job not in the queue any more) keeps the default UNKNOWN
+            try:
+                vals = map_one(ctx, fn3, stmts[i + 1:], bind_lsf("", stmts[i]))
+            except MappingError:
+                vals = [EnumVal("x", "ERROR")]
+            rr.check(not vals or vals[-1].member == "UNKNOWN", f"{fn3.module.relpath}::{fn3.qual}::<empty>", "no record -> UNKNOWN",
+                     f"an empty bjobs answer (no record) is reported as {vals[-1].member if vals else '?'}", fn3.where)
+        strip_ok = found is not None and any(isinstance(c.func, ast.Attribute) and c.func.attr == "strip" for c in _calls(found[0][found[1]].value))
+        rr.check(strip_ok, f"{fn3.module.relpath}::{fn3.qual}::strip", "bjobs output is stripped before the lookup",
+                 "the bjobs output is looked up with its trailing newline: no code ever matches", fn3.where)
+
+        # SGE
+        fn4 = idx.func("gwf.backends.sge:SGEOps.get_job_states")
+
+        def is_state_assign(st):
+            return isinstance(st, ast.Assign) and isinstance(st.targets[0], ast.Name) and 'find("state")' in ast.unparse(st.value).replace("'", '"')
+
+        found = _find_block(fn4, is_state_assign)
+        if found is None:
+            rr.violation(f"{fn4.module.relpath}::{fn4.qual}", "cannot locate where the qstat state string is read", fn4.where)
+        else:
+            stmts, i = found
+            svar = stmts[i].targets[0].id
+            check_mapping(ctx, rr, fn4, "qstat", REF.SGE, lambda code, st0: {svar: code, "job_id": "4242"},
+                          lambda st: st is stmts[i + 1] if i + 1 < len(stmts) else False)
+
+    from .evalhelpers import cached_witness, state_codes_witness
+    ctx.structural_or_witness(r1, cluster_tables_structural, lambda: cached_witness(ctx, "state-codes", state_codes_witness), "src/gwf/backends::state-codes", both=True)
 
     # local
     try:
